@@ -46,6 +46,7 @@ package sidx
 //@   ensures  sameobj(unbox(h, QueryResponseHeap).cursors, old(unbox(h, QueryResponseHeap).cursors)) && off(unbox(h, QueryResponseHeap).cursors) == off(old(unbox(h, QueryResponseHeap).cursors))
 //@   ensures  !old(unbox(h, QueryResponseHeap).cursors[0]).inHeap
 //@   ensures  forall c *QueryResponseCursor :: c != old(unbox(h, QueryResponseHeap).cursors[0]) ==> c.inHeap == old(c.inHeap)
+//@   ensures  no-cursor-enters: forall c *QueryResponseCursor :: c.inHeap ==> old(c.inHeap)
 //@   ensures  listOK(unbox(h, QueryResponseHeap))
 //@   ensures  topFirst(unbox(h, QueryResponseHeap))
 //@ func heap.Fix
